@@ -6,6 +6,14 @@ package codec
 
 //@ use bytes
 
+//@ table CommandStr2Type str2type
+//@ table CommandType2ArgsNumber type2nargs
+//@ table CommandType2Str type2str
+
+//@ define arity_ok(a, n) = (a >= 0 && a <= 4 && a == n) || (a == -1 && n >= 1) || (a == -2 && n >= 2 && n % 2 == 0)
+//@ define checked(v, n) = ite(type2nargs_has(v) && arity_ok(type2nargs_val(v), n), v, ReqWrongArgumentsNumber)
+//@ define lower(c) = ite(c >= 'A' && c <= 'Z', c + 32, c)
+
 //@ define bwf(b) = 0 <= b.r && b.r <= len(b.buf)
 //@ define left(b) = len(b.buf) - b.r
 //@ define lf(b) = bidx(b.buf[b.r:], '\n')
@@ -73,13 +81,29 @@ package codec
 //@   ensures[ok] old(lf(b)) >= 2 && old(b.buf[b.r + lf(b) - 1]) == '\r' ==> result1 == nil && result0 == old(b.buf[b.r : b.r + lf(b) - 1])
 //@   ensures[nonempty] result1 == nil ==> len(result0) >= 1
 
+//@ func checkArgs
+//@   props C17
+//@   flags pure
+//@   ensures[arity] result == checked(command, n)
+
+//@ func Transform2Type
+//@   props C02 C17
+//@   modifies elems(command)
+//@   ensures[lower] forall k int :: 0 <= k && k < len(command) ==> command[k] == lower(old(command[k]))
+//@   ensures[type] result == ite(str2type_has(str(command)), checked(str2type_val(str(command)), n), UNKNOWN)
+
+//@ func Transform2Str
+//@   props C17
+//@   flags pure
+//@   ensures type2str_has(command) ==> result == type2str_val(command)
+
 //@ func toLower
 //@   props C02 C17
 //@   modifies elems(bs)
-//@   ensures[lower] forall k int :: 0 <= k && k < len(bs) ==> bs[k] == ite(old(bs[k]) >= 'A' && old(bs[k]) <= 'Z', old(bs[k]) + 32, old(bs[k]))
+//@   ensures[lower] forall k int :: 0 <= k && k < len(bs) ==> bs[k] == lower(old(bs[k]))
 //@   loop 0
 //@     invariant 0 <= i && i <= len(bs)
-//@     invariant forall k int :: 0 <= k && k < i ==> bs[k] == ite(old(bs[k]) >= 'A' && old(bs[k]) <= 'Z', old(bs[k]) + 32, old(bs[k]))
+//@     invariant forall k int :: 0 <= k && k < i ==> bs[k] == lower(old(bs[k]))
 //@     invariant forall k int :: i <= k && k < len(bs) ==> bs[k] == old(bs[k])
 //@     invariant forall r Ref, j int :: (r != bs.base || j < bs.off || j >= bs.off + len(bs)) ==> rawbyte(r, j) == old(rawbyte(r, j))
 //@     decreases len(bs) - i
